@@ -48,7 +48,16 @@ def gen_mem_design(seed, did, fill_prob=0.15, exact_lookup=False):
         if k == "r":
             a = r.choice([ra, wa])
             n = f"rd{len(s)}"
-            s.append(f"memread {n} M {a}")
+            k = r.random()
+            if k < 0.3:
+                # forward-declared read signal with a consumer attached BEFORE it is bound: the consumer hangs on the
+                # signal node of the (still referenced) frontend object, which hangs directly on the read port
+                s.append(f"loopvar {n} {width}")
+                fo = f"f{len(s)}"
+                s.append(f"out {fo} {n}")
+                s.append(f"membind {n} M {a}")
+            else:
+                s.append(f"{'memreadf' if k < 0.55 else 'memread'} {n} M {a}")
             last_read = n
             if r.random() < 0.35:
                 q = f"rq{len(s)}"
